@@ -333,6 +333,8 @@ func (h *httpServerHandler) handlePostRequest(ctx context.Context, w http.Respon
 			sessionID = session.GetID()
 		}
 		notificationSender := newSSENotificationSender(w, flusher, sessionID)
+		// One event-id generator per stream: ids of notifications and of the final response must not collide.
+		notificationSender.sseWriter = sseResponder.sseWriter
 		reqCtx := withNotificationSender(ctx, notificationSender)
 		if session != nil {
 			reqCtx = setSessionToContext(reqCtx, session)
